@@ -220,6 +220,48 @@ def prepareRequest (w : World) (fuel : Nat) (req : List Name) : Except Err (List
 def flaggedOf (coll : List Entry) (gid : Nat) : List Name :=
   ((coll.filter (fun e => e.1 == gid && e.2.requested)).map (fun e => e.2.name)).eraseDups
 
+/-! ## splitting a feature group's features into feature sets (`ExecutionPlan.group_features_by_compute_framework_and_options`)
+
+Every feature set becomes its own `FeatureGroupStep` with its own result table, so "each requested feature appears in
+exactly one returned table" needs every feature to land in exactly one feature set. -/
+
+/-- a planned feature as the grouping sees it: options (an id; the compute framework is folded into it) and declared type -/
+structure TFeat where
+  name : Name
+  opt : Nat
+  dtype : Option Nat
+  deriving DecidableEq, Repr
+
+/-- one entry of `hash_collector`: key `(options, data type or none)` ↦ features -/
+abbrev Bucket := (Nat × Option Nat) × List TFeat
+
+/-- first pass, `hash_collector[feature.similarity_key()].add(feature)` (dict in insertion order) -/
+def insertBucket : List Bucket → (Nat × Option Nat) → TFeat → List Bucket
+  | [], k, f => [(k, [f])]
+  | b :: bs, k, f => if b.1 == k then (b.1, b.2 ++ [f]) :: bs else b :: insertBucket bs k f
+
+/-- second pass for one feature without declared type: join the FIRST bucket with equal options (`break`), else open a
+bucket under the base key -/
+def joinFirst : List Bucket → TFeat → List Bucket
+  | [], f => [((f.opt, none), [f])]
+  | b :: bs, f => if b.1.1 == f.opt then (b.1, b.2 ++ [f]) :: bs else b :: joinFirst bs f
+
+/-- the variant without the `break`: join EVERY bucket with equal options -/
+def joinAll (bs : List Bucket) (f : TFeat) : List Bucket :=
+  if bs.any (fun b => b.1.1 == f.opt) then bs.map (fun b => if b.1.1 == f.opt then (b.1, b.2 ++ [f]) else b)
+  else bs ++ [((f.opt, none), [f])]
+
+/-- `fs` = the feature set in iteration order -/
+def groupByType (fs : List TFeat) : List Bucket :=
+  let typed := fs.filter (fun f => f.dtype.isSome)
+  let untyped := fs.filter (fun f => !f.dtype.isSome)
+  untyped.foldl joinFirst (typed.foldl (fun bs f => insertBucket bs (f.opt, f.dtype) f) [])
+
+def groupByTypeAll (fs : List TFeat) : List Bucket :=
+  let typed := fs.filter (fun f => f.dtype.isSome)
+  let untyped := fs.filter (fun f => !f.dtype.isSome)
+  untyped.foldl joinAll (typed.foldl (fun bs f => insertBucket bs (f.opt, f.dtype) f) [])
+
 /-! ## per-step selection (`DataLifecycleManager.add_to_result_data_collection`) -/
 
 structure Step where
